@@ -133,15 +133,17 @@ def modelAttrs (f : Fields) : List (Str × Str) :=
   ("odk:xforms-version".toList, Pyxv.Gen.currentXformsVersion.toList) ::
     (if f.entityFeatures then [("entities:entities-version".toList, Pyxv.Gen.entitiesOfflineVersion.toList)] else [])
 
+/-- `submission_attrs` (survey.py:697-706) -/
+def subAttrs (f : Fields) : List (Str × Str) :=
+  (if f.submissionUrl.isEmpty then [] else [("action".toList, f.submissionUrl), ("method".toList, "post".toList)]) ++
+  optAttr "base64RsaPublicKey" f.publicKey ++
+  optAttr "orx:auto-send" f.autoSend ++
+  optAttr "orx:auto-delete" f.autoDelete
+
 /-- the `<submission>` element (survey.py:696-708), if any -/
 def submissionNode (f : Fields) : List Node :=
   if f.submissionUrl.isEmpty && f.publicKey.isEmpty && f.autoSend.isEmpty && f.autoDelete.isEmpty then []
-  else
-    [pyNode "submission".toList
-      ((if f.submissionUrl.isEmpty then [] else [("action".toList, f.submissionUrl), ("method".toList, "post".toList)]) ++
-       optAttr "base64RsaPublicKey" f.publicKey ++
-       optAttr "orx:auto-send" f.autoSend ++
-       optAttr "orx:auto-delete" f.autoDelete) []]
+  else [pyNode "submission".toList (subAttrs f) []]
 
 /-- attributes of the primary instance root: `Survey.xml_instance` (717-740) applied to the
     attribute-less element `Section.xml_instance` returns for a survey -/
@@ -153,11 +155,16 @@ def rootAttrs (f : Fields) : List (Str × Str) :=
   let a := if f.pfx.isEmpty then a else setAttr a "odk:prefix".toList f.pfx
   if f.delimiter.isEmpty then a else setAttr a "odk:delimiter".toList f.delimiter
 
+/-- `if self._translations: model_children.append(self.itext())`; `itext()` returns `node("itext", *result)` -/
+def itextPart : Option (List Node) → List Node
+  | some ks => [pyNode "itext".toList [] ks]
+  | none => []
+
 /-- children of `<model>`: submission (inserted at 0), itext (if there are translations),
     the primary instance, then everything the generators yield -/
 def modelKids (f : Fields) (itext : Option (List Node)) (rootKids rest : List Node) : List Node :=
   submissionNode f ++
-  (match itext with | some ks => [pyNode "itext".toList [] ks] | none => []) ++
+  itextPart itext ++
   pyNode "instance".toList [] [.elem f.name (rootAttrs f) rootKids] :: rest
 
 /-- attributes of `<h:html>`: `**nsmap` -/
@@ -183,8 +190,7 @@ def eproj : Node → Node
   | .elem t a ks => .elem t a (eprojKids ks)
 def eprojKids : List Node → List Node
   | [] => []
-  | .text _ _ :: ks => eprojKids ks
-  | .elem t a ks' :: ks => .elem t a (eprojKids ks') :: eprojKids ks
+  | k :: ks => if isText k then eprojKids ks else eproj k :: eprojKids ks
 end
 
 /-- expanded name of an element tag: namespace URI (looked up in the attribute lists of the
